@@ -63,3 +63,18 @@ Fixpoint final1 (c : cfg) (ap : option counter * option Z) (ts : list Z) : optio
   | [] => ap
   | t :: r => final1 c (fst (step1 c ap t)) r
   end.
+
+(* ---- vocabulary for the "below the threshold" statement *)
+(* number of request times in l that fall into the closed window [a, b] *)
+Fixpoint count_in (l : list Z) (a b : Z) : Z :=
+  match l with
+  | [] => 0
+  | t :: r => (if (a <=? t) && (t <=? b) then 1 else 0) + count_in r a b
+  end.
+(* non-decreasing times, all at or after prev *)
+Fixpoint nondecr (prev : Z) (l : list Z) : Prop :=
+  match l with [] => True | t :: r => prev <= t /\ nondecr t r end.
+(* every window [a, a+period] that starts at a request time holds at most threshold requests *)
+Definition windows_ok (c : cfg) (l : list Z) : Prop :=
+  forall a, In a l -> count_in l a (a + c_period c) <= c_threshold c.
+
